@@ -8,6 +8,7 @@ use toml_write::TomlWrite as _;
 use crate::inline_table::DEFAULT_INLINE_KEY_DECOR;
 use crate::key::Key;
 use crate::repr::{Formatted, Repr, ValueRepr};
+use crate::RawString;
 use crate::table::{
     DEFAULT_KEY_DECOR, DEFAULT_KEY_PATH_DECOR, DEFAULT_ROOT_DECOR, DEFAULT_TABLE_DECOR,
 };
@@ -32,6 +33,15 @@ pub(crate) fn encode_key(this: &Key, buf: &mut dyn Write, input: Option<&str>) -
     Ok(())
 }
 
+/// Only blanks may surround the keys inside a `[table]` header
+fn is_blank(raw: Option<&RawString>, input: Option<&str>) -> bool {
+    raw.map_or(true, |raw| {
+        raw.to_str_with_default(input, "")
+            .bytes()
+            .all(|b| b == b' ' || b == b'\t')
+    })
+}
+
 fn encode_key_path(
     this: &[Key],
     mut buf: &mut dyn Write,
@@ -46,7 +56,12 @@ fn encode_key_path(
         let last = i + 1 == this.len();
 
         if first {
-            leaf_decor.prefix_encode(buf, input, default_decor.0)?;
+            if is_blank(leaf_decor.prefix(), input) {
+                leaf_decor.prefix_encode(buf, input, default_decor.0)?;
+            } else {
+                // written in front of the header by `visit_table`
+                write!(buf, "{}", default_decor.0)?;
+            }
         } else {
             buf.key_sep()?;
             dotted_decor.prefix_encode(buf, input, DEFAULT_KEY_PATH_DECOR.0)?;
@@ -261,6 +276,16 @@ where
     Ok(())
 }
 
+/// A key that used to sit on a `key = value` line may carry comments and line breaks in front
+/// of it; they cannot go inside the brackets of a header, so they are written in front of it.
+fn encode_key_comments(path: &[Key], buf: &mut dyn Write, input: Option<&str>) -> Result {
+    let leaf_decor = path.last().expect("always at least one key").leaf_decor();
+    if !is_blank(leaf_decor.prefix(), input) {
+        leaf_decor.prefix_encode(buf, input, "")?;
+    }
+    Ok(())
+}
+
 fn visit_table(
     mut buf: &mut dyn Write,
     input: Option<&str>,
@@ -294,6 +319,7 @@ fn visit_table(
             DEFAULT_TABLE_DECOR
         };
         table.decor.prefix_encode(buf, input, default_decor.0)?;
+        encode_key_comments(path, buf, input)?;
         buf.open_array_of_tables_header()?;
         encode_key_path(path, buf, input, DEFAULT_KEY_PATH_DECOR)?;
         buf.close_array_of_tables_header()?;
@@ -307,6 +333,7 @@ fn visit_table(
             DEFAULT_TABLE_DECOR
         };
         table.decor.prefix_encode(buf, input, default_decor.0)?;
+        encode_key_comments(path, buf, input)?;
         buf.open_table_header()?;
         encode_key_path(path, buf, input, DEFAULT_KEY_PATH_DECOR)?;
         buf.close_table_header()?;
